@@ -13,7 +13,9 @@ RULE = ("histories of 1-8 public Curve operations over 2-3 curves, two of them b
         "one a deep copy or an independent curve: mutators (knot_insert / knot_remove / degree_increase / degree_decrease / "
         "degree setter / ctrlpoints and weights setters / clean family) with ~35% invalid arguments, and non-mutating "
         "operations (evaluation, arithmetic, ==, split, fraction, copy-then-mutate-the-copy, Derivate, Integrate, fitting "
-        "another curve to it); every curve and every KnotVector object is snapshotted after each call; non-trivial = a "
+        "another curve to it, joining a rational left neighbour of another degree with it) and fitting the curve itself to a "
+        "rational source whose projected weights may change sign; every curve (two bystanders included) and every KnotVector "
+        "object is snapshotted after each call; non-trivial = a "
         "history with >= 3 steps containing a failed call and a successful mutator")
 
 
@@ -44,7 +46,7 @@ def _rand_op(rnd, curves, i, dim):
     inside = lambda: a + (b - a) * F(rnd.randint(1, 11), 12)
     bad = rnd.random() < 0.35
     kind = rnd.choice(["insert", "insert", "remove", "inc", "dec", "setdeg", "setP", "setW", "clean", "kclean", "dclean",
-                       "pure", "pure", "pure", "pure"])
+                       "pure", "pure", "pure", "pure", "fitself"])
     n = int(c.npts)
     if kind == "insert":
         ns = [rnd.choice(ks[1:-1]) if len(ks) > 2 and rnd.random() < 0.4 else inside() for _ in range(rnd.randint(1, 2))]
@@ -73,8 +75,13 @@ def _rand_op(rnd, curves, i, dim):
         return {"op": "setW", "W": fsl(rand_weights(rnd, max(m, 1)))}
     if kind in ("clean", "kclean", "dclean"):
         return {"op": kind}
+    if kind == "fitself":
+        # the curve itself is fitted to a rational source whose weight function is very uneven: on a coarse target the
+        # projected weights change sign and the weights setter refuses - after the control points were computed
+        return {"op": "fitself"}
     return {"op": "pure", "what": rnd.choice(["eval", "add", "muls", "eq", "split", "fraction", "copymut", "derivate",
-                                               "integrate", "fit", "sub", "neg", "splitmut", "splitmut", "project", "intersect"]),
+                                               "integrate", "fit", "sub", "neg", "splitmut", "splitmut", "project", "intersect",
+                                               "join", "join"]),
             "j": rnd.randrange(len(curves))}
 
 
@@ -115,6 +122,8 @@ def _apply(rnd, curves, i, op, dim):
         c.knot_clean()
     elif o == "dclean":
         c.degree_clean()
+    elif o == "fitself":
+        c.fit_curve(curves[4])
     else:
         w = op["what"]
         other = curves[op["j"]]
@@ -148,6 +157,11 @@ def _apply(rnd, curves, i, op, dim):
             if dim == 2:
                 from compmec.nurbs.advanced import Intersection
                 Intersection.curve_and_curve(c, other)
+        elif w == "join":
+            # the left neighbour (rational, vector points in numpy arrays, another degree) joined with this curve: neither
+            # operand may change (curves[3] is part of the observed world)
+            if c.ctrlpoints is not None and len(np.shape(c.ctrlpoints[0])) == len(np.shape(curves[3].ctrlpoints[0])):
+                curves[3] | c
         elif w == "fraction":
             c.fraction()
         elif w == "copymut":
@@ -183,7 +197,17 @@ def impl(case):
     else:
         kv2 = KnotVector([U[0]] * 2 + [U[-1]] * 2)
         c2 = Curve(kv2, points(pts_json(rand_points(rnd, 2, dim)), dim == 1))
-    curves = [c0, c1, c2]
+    # two observed bystanders that no mutator targets: the left neighbour used by `|` (degree 1, rational, numpy points) and
+    # a rational source with a very uneven weight function on the same interval (weights 1/100, 1/100, 1)
+    import numpy as np
+    from fractions import Fraction
+    a, b = U[0], U[-1]
+    left_pts = points(pts_json(rand_points(rnd, 3, dim)), dim == 1)
+    c3 = Curve([a - 2, a - 2, a - 1, a, a], left_pts)
+    c3.weights = [Fraction(2), Fraction(3), Fraction(5, 2)]
+    c4 = Curve([a, a, a + (b - a) * Fraction(9, 10), b, b], points(pts_json(rand_points(rnd, 3, dim)), dim == 1))
+    c4.weights = [Fraction(1, 100), Fraction(1, 100), Fraction(1)]
+    curves = [c0, c1, c2, c3, c4]
     kvs = [kvobj, kv2]
 
     def world():
@@ -231,7 +255,7 @@ def cop(op):
         return f"(SSetP {cqll(op['P'])})"
     if o == "setW":
         return f"(SSetW {copt(op['W'], cql)})"
-    return {"clean": "SClean", "kclean": "SKnotClean", "dclean": "SDegClean", "pure": "SPure"}[o]
+    return {"clean": "SClean", "kclean": "SKnotClean", "dclean": "SDegClean", "pure": "SPure", "fitself": "SFit"}[o]
 
 
 def emit(case, out):
